@@ -161,6 +161,9 @@ def edge(cfg, module=None):
 
 
 PROPS["C13"]["families"] = PROPS["C13"]["families"] + [edge("MC_Ring")]
+# executions that once exposed a fault of the machinery itself (a false alarm) are kept and re-run
+for _p in PROPS:
+    PROPS[_p]["families"] = PROPS[_p]["families"] + [{"name": "regress", "gen": fam_regress(_p + "-"), "quick": 1, "thorough": 1}]
 
 
 def sim(cfg, module, quick=30, thorough=600, depth=120):
